@@ -31,8 +31,13 @@ from py2lean_dispatch import TrProg, names_used, names_assigned, path_or_none
 D.LEAN_TY.update({
     'optdata': 'Option δ', 'task': 'θ', 'opttask': 'Option θ', 'event': 'κ', 'val': 'ν', 'optval': 'Option ν',
     'optexc': 'Option ε', 'aw': 'α', 'delta': 'Int', 'queue': 'Unit', 'taskset': 'Unit',
+    # constructors / OutputFunc (second generated file)
+    'str': 'String', 'argspec': 'α', 'evspec': 'ω', 'evtuple': 'τ', 'guardarg': 'γ', 'optguard': 'Option γ',
+    'optsd': 'Option ψ', 'int': 'Int', 'posargs': 'Unit', 'kwargs': 'Unit',
+    'xargs': 'A', 'xkwargs': 'K', 'pool': 'π', 'partial': 'φ', 'rie': 'Unit', 'vals': 'List ν', 'kwvals': 'List (String × ν)', 'fval': 'ν', 'fdata': 'δ',
 })
-OPT = {'optdata': 'data?', 'opttask': 'task', 'optexc': 'exc', 'optval': 'val'}     # optional tag -> inner tag
+OPT = {'optdata': 'data?', 'opttask': 'task', 'optexc': 'exc', 'optval': 'val',      # optional tag -> inner tag
+       'optguard': 'guardarg'}
 OPT_INNER = {'task': 'opttask', 'exc': 'optexc', 'val': 'optval'}
 
 
@@ -71,6 +76,8 @@ class TrOA(TrProg):
             # the other optional locals hold objects that are always true (a Task, an exception, a result
             # that is never tested)
             return f'({text}).isSome'
+        if ty == 'xkwargs':
+            return f'{self.P}.kwargsNonEmpty {text}'
         if ty == 'taskset':
             self.reads_state = True
             return f'{self.P}.tasksNonEmpty st'
@@ -79,6 +86,13 @@ class TrOA(TrProg):
     def expr(self, node, env):
         if isinstance(node, ast.Await):
             raise self.U('await inside an expression: ' + ast.unparse(node)[:60])
+        # the pair returned by OutputFunc._event_put: (tag, exception | value)
+        if (isinstance(node, ast.Tuple) and len(node.elts) == 2 and isinstance(node.elts[0], ast.Constant)
+                and isinstance(node.elts[0].value, str) and 'pair' in self.t):
+            t, ty = self.expr(node.elts[1], env)
+            if ty not in self.t['pair']:
+                raise self.U(f'result pair with a value of type {ty}')
+            return (f'("{node.elts[0].value}", {self.t["pair"][ty]} {t})', 'retpair')
         # `x and <test using x>` for an optional local x
         if (isinstance(node, ast.BoolOp) and isinstance(node.op, ast.And)
                 and opt_conjunct(node.values[0], env) is not None):
@@ -94,6 +108,14 @@ class TrOA(TrProg):
 
     def compare(self, node, env):
         ops, rights = node.ops, node.comparators
+        if (len(ops) == 1 and isinstance(ops[0], (ast.In, ast.NotIn)) and isinstance(rights[0], (ast.Set, ast.Tuple, ast.List))
+                and all(isinstance(e, ast.Constant) and isinstance(e.value, str) for e in rights[0].elts)):
+            t, ty = self.expr(node.left, env)
+            if ty != 'str':
+                raise self.U('membership test on a value of type ' + ty)
+            lst = '[' + ', '.join('"' + e.value + '"' for e in rights[0].elts) + ']'
+            txt = f'({lst}.contains {t})'
+            return (txt if isinstance(ops[0], ast.In) else f'(!{txt})', 'bool')
         if (len(ops) == 1 and isinstance(ops[0], (ast.Is, ast.IsNot))
                 and isinstance(rights[0], ast.Constant) and rights[0].value is None):
             t, ty = self.expr(node.left, env)
@@ -118,7 +140,7 @@ class TrOA(TrProg):
         """the patterns of py2lean_dispatch plus: ('kwconst', name, value), ('kwty', name, type),
         ('call', path, patterns) -- a nested call matched structurally --, ('star', type)"""
         out = []
-        pos = [p for p in pats if p[0] not in ('kwconst', 'kwty', 'kw', 'starstar')]
+        pos = [p for p in pats if p[0] not in ('kwconst', 'kwty', 'kw', 'starstar', 'anykw')]
         if len(node.args) != len(pos):
             return None
         for p, a in zip(pos, node.args):
@@ -136,6 +158,10 @@ class TrOA(TrProg):
                 if ty != p[1]:
                     return None
                 out.append(t)
+            elif p[0] == 'strconst':
+                if not (isinstance(a, ast.Constant) and isinstance(a.value, str)):
+                    return None
+                out.append('"' + a.value + '"')
             elif p[0] == 'star':
                 if not isinstance(a, ast.Starred):
                     return None
@@ -158,7 +184,10 @@ class TrOA(TrProg):
         kws = {k.arg: k.value for k in node.keywords}
         used = set()
         for p in pats:
-            if p[0] == 'kwconst':
+            if p[0] == 'anykw':
+                if p[1] in kws:
+                    used.add(p[1])
+            elif p[0] == 'kwconst':
                 v = kws.get(p[1])
                 if not (isinstance(v, ast.Constant) and type(v.value) is type(p[2]) and v.value == p[2]):
                     return None
@@ -212,7 +241,7 @@ class TrOA(TrProg):
                 raise self.U('await ' + ast.unparse(v)[:60])
             saved = self.t.get('effects', ()), self.t.get('method_effects', ()), self.t.get('var_calls', ())
             self.t['effects'], self.t['method_effects'] = self.t.get('awaits', ()), self.t.get('await_methods', ())
-            self.t['var_calls'] = ()
+            self.t['var_calls'] = self.t.get('await_var_calls', ())
             try:
                 eff = super().effect(v, env)
             finally:
@@ -259,6 +288,54 @@ class TrOA(TrProg):
             return test.id, OPT[env[test.id][1]], False
         return super().narrowing(test, env)
 
+    def join(self, parts, rest, env, live):
+        """as in the base class, but a `for` variable that is bound again by a later loop is not carried"""
+        rebound = {n.target.id for st in rest for n in ast.walk(st)
+                   if isinstance(n, ast.For) and isinstance(n.target, ast.Name)}
+        loopvars = {n.target.id for p in parts for st in p for n in ast.walk(st)
+                    if isinstance(n, ast.For) and isinstance(n.target, ast.Name)}
+        hide = rebound & loopvars
+        if not hide:
+            return super().join(parts, rest, env, live)
+
+        class Strip(ast.NodeTransformer):
+            def visit_For(self, node):
+                return ast.copy_location(ast.Pass(), node) if isinstance(node.target, ast.Name) and node.target.id in hide else node
+        rest2 = [Strip().visit(copy.deepcopy(st)) for st in rest]
+        return super().join(parts, rest2, env, live)
+
+    def effect_free(self, test, env):
+        """a translatable test without awaits and effects"""
+        if any(isinstance(n, ast.Await) for n in ast.walk(test)):
+            return False
+        try:
+            self.cond(test, env)
+        except D.Ctx.Untranslatable:
+            return False
+        return True
+
+    def comprehension(self, node, env):
+        """`tuple(data[k] for k in self._f_args)` / `{k: data[k] for k in self._f_kwargs}`: the items of the event
+        data named by a declared list of keys (a missing key raises KeyError)"""
+        lists = self.t.get('keylists', {})
+
+        def item(elt, var):
+            return (isinstance(elt, ast.Subscript) and isinstance(elt.value, ast.Name) and elt.value.id in env
+                    and env[elt.value.id][1] == 'fdata' and isinstance(elt.slice, ast.Name) and elt.slice.id == var)
+        if (isinstance(node, ast.Call) and isinstance(node.func, ast.Name) and node.func.id == 'tuple'
+                and len(node.args) == 1 and not node.keywords and isinstance(node.args[0], ast.GeneratorExp)):
+            g = node.args[0]
+            if (len(g.generators) == 1 and not g.generators[0].ifs and isinstance(g.generators[0].target, ast.Name)
+                    and path_or_none(g.generators[0].iter) in lists and item(g.elt, g.generators[0].target.id)):
+                return (f'getItems {self.P}.getItem {env[g.elt.value.id][0]} {lists[path_or_none(g.generators[0].iter)]}', 'vals')
+        if isinstance(node, ast.DictComp):
+            g = node
+            if (len(g.generators) == 1 and not g.generators[0].ifs and isinstance(g.generators[0].target, ast.Name)
+                    and path_or_none(g.generators[0].iter) in lists and isinstance(g.key, ast.Name)
+                    and g.key.id == g.generators[0].target.id and item(g.value, g.key.id)):
+                return (f'getKwItems {self.P}.getItem {env[g.value.value.id][0]} {lists[path_or_none(g.generators[0].iter)]}', 'kwvals')
+        return None
+
     def only_logging(self, stmts):
         return bool(stmts) and all(isinstance(s, ast.Expr) and self.ignorable_call(s.value) for s in stmts)
 
@@ -278,8 +355,56 @@ class TrOA(TrProg):
         s, rest = stmts[0], list(stmts[1:])
         if isinstance(s, ast.Pass):
             return self.block(rest, env, fall, ind, live)
+        if isinstance(s, ast.Return) and isinstance(s.value, ast.Await):
+            eff = self.effect(s.value, env)
+            if eff[1] != self.t['ret_type']:
+                raise self.U(f'return of a value of type {eff[1]}')
+            return f'{pad}M.bind ({eff[0]}) fun r_ =>\n{pad}M.ret r_'
+        if (isinstance(s, ast.With) and len(s.items) == 1 and isinstance(s.items[0].optional_vars, ast.Name)
+                and ast.unparse(s.items[0].context_expr) in self.t.get('contexts_as', {})):
+            enter, exit_, cty = self.t['contexts_as'][ast.unparse(s.items[0].context_expr)]
+            name = s.items[0].optional_vars.id
+            env2 = dict(env)
+            env2[name] = (name, cty)
+            if rest:
+                raise self.U('statements after a `with … as` block')
+            body = self.block(list(s.body), env2, fall, ind + 2, live)
+            return (f'{pad}M.bind ({enter.format(P=self.P)}) fun {name} =>\n{pad}M.tryFinally (\n{body}\n{pad}) '
+                    f'({exit_.format(P=self.P, x=name)})')
         if isinstance(s, ast.If) and not s.orelse and self.only_logging(s.body) and self.pure_debug_test(s.test):
             return self.block(rest, env, fall, ind, live)
+        if isinstance(s, ast.AnnAssign) and s.value is None:
+            return self.block(rest, env, fall, ind, live)       # a bare annotation
+        if isinstance(s, ast.If) and not s.orelse and self.only_logging(s.body) and self.effect_free(s.test, env):
+            return self.block(rest, env, fall, ind, live)       # a test that only decides about logging
+        if isinstance(s, ast.Assign) and len(s.targets) == 1:
+            tp = path_or_none(s.targets[0])
+            comp = self.comprehension(s.value, env)
+            if comp is not None and isinstance(s.targets[0], ast.Name):
+                text, ty = comp
+                name = s.targets[0].id
+                env2 = dict(env)
+                env2[name] = (name, ty)
+                return f'{pad}M.bind ({text}) fun {name} =>\n' + self.block(rest, env2, fall, ind, live)
+            if tp in self.t.get('setattr', {}):
+                lean, want = self.t['setattr'][tp]
+                v = s.value
+                if isinstance(v, ast.IfExp):
+                    # self.x = a if c else b   ==   if c: self.x = a  else: self.x = b
+                    st = ast.If(test=v.test, body=[ast.Assign(targets=s.targets, value=v.body)],
+                                orelse=[ast.Assign(targets=s.targets, value=v.orelse)])
+                    ast.fix_missing_locations(ast.copy_location(st, s))
+                    return self.block([st] + rest, env, fall, ind, live)
+                eff = self.effect(v, env)
+                if eff is not None:
+                    if eff[1] != want:
+                        raise self.U(f'{tp} = <{eff[1]}>')
+                    return (f'{pad}M.bind ({eff[0]}) fun v_ =>\n{pad}M.bind ({lean.format(P=self.P, x="v_")}) fun _ =>\n'
+                            + self.block(rest, env, fall, ind, live))
+                t, ty = self.expr(v, env)
+                if ty != want:
+                    raise self.U(f'{tp} = <{ty}>')
+                return f'{pad}M.bind ({lean.format(P=self.P, x=t)}) fun _ =>\n' + self.block(rest, env, fall, ind, live)
         if isinstance(s, ast.AnnAssign) and s.value is not None and isinstance(s.target, ast.Name):
             s2 = ast.Assign(targets=[s.target], value=s.value)
             return self.block([ast.copy_location(s2, s)] + rest, env, fall, ind, live)
@@ -696,6 +821,212 @@ def shield_target(api):
     )
 
 
+HEADER2 = r"""/- GENERATED by tools/py2lean.py (tools/py2lean_oasync.py) from the Python source of edzed
+   (blocklib.sblocks2: _check_arg, OutputAsync.__init__/start/init_regular, OutputFunc, InExecutor) -- do not edit -/
+import EdzedModel.Gen.TranslatedDispatch
+
+set_option linter.unusedVariables false
+
+namespace Edzed.Gen.TrOB
+open Edzed.Gen.TrD
+
+/-- which control coroutine `OutputAsync.__init__` selects -/
+inductive CtrlKind where
+  | cancel | wait | start
+  deriving DecidableEq, Repr
+
+/-- `tuple(data[k] for k in keys)`: the items in the order of the keys; a missing key raises at once -/
+def getItems {σ ε ρ δ ν : Type} (getItem : δ → String → M σ ε ρ ν) (data : δ) : List String → M σ ε ρ (List ν)
+  | [] => M.pure []
+  | k :: ks => M.bind (getItem data k) fun v => M.bind (getItems getItem data ks) fun vs => M.pure (v :: vs)
+
+/-- `{k: data[k] for k in keys}` -/
+def getKwItems {σ ε ρ δ ν : Type} (getItem : δ → String → M σ ε ρ ν) (data : δ) :
+    List String → M σ ε ρ (List (String × ν))
+  | [] => M.pure []
+  | k :: ks => M.bind (getItem data k) fun v => M.bind (getKwItems getItem data ks) fun vs => M.pure ((k, v) :: vs)
+
+/-- the leaves of `_check_arg` and of the two constructors.  α values passed as f_args / f_kwargs, ω values
+    passed as on_success / on_cancel / on_error, τ tuples of events, γ guard_time values, ψ stop_data -/
+structure InitPrims (σ ε α ω τ γ ψ : Type) where
+  isStr : α → Bool                            -- `isinstance(arg, str)`
+  isSequence : α → Bool                       -- `isinstance(arg, Sequence)`
+  anyItemNotStr : α → Bool                    -- `any(not isinstance(k, str) for k in arg)`
+  mkExc : String → String → ε                 -- `Class(message)`; the declared marker found in the message
+  checkArg : String → α → M σ ε Unit Unit     -- `_check_arg(name, arg)`
+  eventTuple : ω → M σ ε Unit τ               -- `block.event_tuple(x)`
+  timePeriod : γ → M σ ε Unit Int             -- `utils.time_period(guard_time)`
+  setOnSuccess : τ → M σ ε Unit Unit          -- `self._on_success = …`
+  setOnCancel : τ → M σ ε Unit Unit
+  setOnError : τ → M σ ε Unit Unit
+  setGuard : Int → M σ ε Unit Unit            -- `self._guard_time = …`
+  setCallable : M σ ε Unit Unit               -- `self._coro = coro` / `self._func = func`
+  setCtrl : CtrlKind → M σ ε Unit Unit        -- `self._ctrl_coro = self._ctrl_…`
+  setFArgs : α → M σ ε Unit Unit              -- `self._f_args = …`
+  setFKwargs : α → M σ ε Unit Unit
+  setStopData : Option ψ → M σ ε Unit Unit    -- `self._stop_data = stop_data`
+  superInit : M σ ε Unit Unit                 -- `super().__init__(*args, **kwargs)` (sets stop_timeout, may raise)
+  getGuard : σ → Int                          -- `self._guard_time`
+  getStopTimeout : σ → Int                    -- `self.stop_timeout`
+  superStart : M σ ε Unit Unit                -- `super().start()`
+  newQueue : M σ ε Unit Unit                  -- `self._queue = asyncio.Queue()`
+  createCtrlTask : M σ ε Unit Unit            -- `self._ctrl_task = self._create_monitored_task(self._ctrl_coro(), name=…)`
+  setOutput : Int → M σ ε Unit Unit           -- `self.set_output(n)`
+
+/-- the leaves of `InExecutor.__call__`; A positional arguments, K keyword arguments, π pools, φ partial objects -/
+structure ExecPrims (σ ε ν A K π φ : Type) where
+  enterPool : M σ ε ν π                       -- `self._executor().__enter__()`
+  exitPool : π → M σ ε ν Unit                 -- `….__exit__(…)` (on every outcome)
+  kwargsNonEmpty : K → Bool                   -- `bool(kwargs)`
+  mkPartial : A → K → φ                       -- `functools.partial(self._func, *args, **kwargs)`
+  runPartial : π → φ → M σ ε ν ν              -- `await run_in_executor(pool, func)`
+  runPlain : π → A → M σ ε ν ν                -- `await run_in_executor(pool, self._func, *args)`
+  setFunc : M σ ε ν Unit                      -- `self._func = func`
+  setExecutor : M σ ε ν Unit                  -- `self._executor = executor`
+
+/-- the leaves of `OutputFunc._event_put / stop / init_regular`; δ event data, ν values, κ events;
+    the value of `_event_put` is the pair (tag, exception | result) -/
+structure FuncPrims (σ ε δ ν κ : Type) where
+  getItem : δ → String → M σ ε (String × (ε ⊕ ν)) ν         -- `data[k]` (KeyError when missing)
+  callFunc : List ν → List (String × ν) → M σ ε (String × (ε ⊕ ν)) ν   -- `self._func(*args, **kwargs)`
+  excIs : ε → String → Bool
+  sendError : κ → ε → M σ ε (String × (ε ⊕ ν)) Unit         -- `ev.send(self, trigger='error', error=err)`
+  sendSuccess : κ → ν → M σ ε (String × (ε ⊕ ν)) Unit       -- `ev.send(self, trigger='success', value=result)`
+  setOutputBool : Bool → M σ ε (String × (ε ⊕ ν)) Unit      -- `self.set_output(b)`
+  hasStopData : Bool                                        -- `self._stop_data is not None`
+  eventPutStopData : M σ ε (String × (ε ⊕ ν)) (String × (ε ⊕ ν))   -- `self._event_put(**self._stop_data)`
+  superStop : M σ ε (String × (ε ⊕ ν)) Unit                 -- `super().stop()`
+
+"""
+
+
+def init_target(api, name, obj, doc, args, ret='Unit'):
+    return dict(
+        name=name, doc=doc, node=lambda: api['fn_ast'](obj),
+        P='P', prims='InitPrims σ ε α ω τ γ ψ', tyvars='{σ ε α ω τ γ ψ : Type}', ret_lean='Unit', ret_type='unit',
+        args=args,
+        ignore=('self.log_*', '_logger.*'),
+        exceptions=('ValueError', 'TypeError'),
+        message_markers={'should be a sequence': 'not-a-sequence-of-strings', "Argument 'mode'": 'mode',
+                         'must not exceed': 'guard-exceeds-stop_timeout'},
+        isinstance={('argspec', 'str'): '{P}.isStr {x}', ('argspec', 'Sequence'): '{P}.isSequence {x}'},
+        atoms={'any((not isinstance(k, str) for k in arg))': ('P.anyItemNotStr arg', 'bool'),
+               '0.0': ('(0 : Int)', 'int'), '0': ('(0 : Int)', 'int'),
+               'self._ctrl_cancel': ('CtrlKind.cancel', 'ctrl'), 'self._ctrl_wait': ('CtrlKind.wait', 'ctrl'),
+               'self._ctrl_start': ('CtrlKind.start', 'ctrl'),
+               'coro': ('()', 'callable'), 'func': ('()', 'callable'), 'asyncio.Queue()': ('()', 'newqueue')},
+        state={'self._guard_time': ('P.getGuard st', 'int'), 'self.stop_timeout': ('P.getStopTimeout st', 'int')},
+        effects=[('_check_arg', [('strconst',), ('ty', 'argspec')], '{P}.checkArg {a[0]} {a[1]}', 'unit'),
+                 ('block.event_tuple', [('ty', 'evspec')], '{P}.eventTuple {a[0]}', 'evtuple'),
+                 ('utils.time_period', [('ty', 'guardarg')], '{P}.timePeriod {a[0]}', 'int'),
+                 ('super().__init__', [('star', 'posargs'), ('starstar', 'kwargs')], '{P}.superInit', 'unit'),
+                 ('super().start', [], '{P}.superStart', 'unit'),
+                 ('self.set_output', [('ty', 'int')], '{P}.setOutput {a[0]}', 'unit'),
+                 ('self._create_monitored_task', [('call', 'self._ctrl_coro', []), ('anykw', 'name')],
+                  '{P}.createCtrlTask', 'ctrltask')],
+        setattr={'self._on_success': ('{P}.setOnSuccess {x}', 'evtuple'), 'self._on_cancel': ('{P}.setOnCancel {x}', 'evtuple'),
+                 'self._on_error': ('{P}.setOnError {x}', 'evtuple'), 'self._guard_time': ('{P}.setGuard {x}', 'int'),
+                 'self._coro': ('{P}.setCallable', 'callable'), 'self._func': ('{P}.setCallable', 'callable'),
+                 'self._ctrl_coro': ('{P}.setCtrl {x}', 'ctrl'), 'self._f_args': ('{P}.setFArgs {x}', 'argspec'),
+                 'self._f_kwargs': ('{P}.setFKwargs {x}', 'argspec'), 'self._stop_data': ('{P}.setStopData {x}', 'optsd'),
+                 'self._queue': ('{P}.newQueue', 'newqueue'), 'self._ctrl_task': ('M.pure ()', 'ctrltask')},
+    )
+
+
+CTOR_ASYNC = [('mode', 'str'), ('f_args', 'argspec'), ('f_kwargs', 'argspec'), ('guard_time', 'optguard'),
+              ('on_success', 'evspec'), ('on_cancel', 'evspec'), ('on_error', 'evspec'), ('stop_data', 'optsd'),
+              ('args', 'posargs'), ('kwargs', 'kwargs')]
+CTOR_FUNC = [('f_args', 'argspec'), ('f_kwargs', 'argspec'), ('on_success', 'evspec'), ('on_error', 'evspec'),
+             ('stop_data', 'optsd'), ('args', 'posargs'), ('kwargs', 'kwargs')]
+
+
+def func_target(api, name, method, args, ret_pair):
+    cls = api['sblocks2'].OutputFunc
+    return dict(
+        name=name, doc=f'blocklib.sblocks2.OutputFunc.{method}', node=lambda: api['fn_ast'](getattr(cls, method)),
+        P='P', prims='FuncPrims σ ε δ ν κ', tyvars='{σ ε δ ν κ : Type}', ret_lean='(String × (ε ⊕ ν))',
+        ret_type='retpair', args=args,
+        extra_params=[('fArgs', 'List String'), ('fKwargs', 'List String'), ('onError', 'List κ'), ('onSuccess', 'List κ')],
+        ignore=('self.log_*', '_logger.*'), inert_calls=('_args_as_string',),
+        keylists={'self._f_args': 'fArgs', 'self._f_kwargs': 'fKwargs'},
+        pair={'exc': 'Sum.inl', 'fval': 'Sum.inr'},
+        catchable=('Exception',),
+        lists={'self._on_error': ('onError', 'event'), 'self._on_success': ('onSuccess', 'event')},
+        atoms={'self._stop_data is not None': ('P.hasStopData', 'bool'), 'self._stop_data': ('()', 'stopdata'),
+               },
+        method_effects=[('event', 'send', [('self',), ('kwconst', 'trigger', 'error'), ('kwty', 'error', 'exc')],
+                         '{P}.sendError {x} {a[0]}', 'unit'),
+                        ('event', 'send', [('self',), ('kwconst', 'trigger', 'success'), ('kwty', 'value', 'fval')],
+                         '{P}.sendSuccess {x} {a[0]}', 'unit')],
+        effects=[('self._func', [('star', 'vals'), ('starstar', 'kwvals')], '{P}.callFunc {a[0]} {a[1]}', 'fval'),
+                 ('self.set_output', [('ty', 'bool')], '{P}.setOutputBool {a[0]}', 'unit'),
+                 ('self._event_put', [('starstar', 'stopdata')], '{P}.eventPutStopData', 'retpair'),
+                 ('super().stop', [], '{P}.superStop', 'unit')],
+    )
+
+
+def exec_target(api, name, method, args):
+    cls = api['sblocks2'].InExecutor
+    return dict(
+        name=name, doc=f'blocklib.sblocks2.InExecutor.{method}', node=lambda: api['fn_ast'](getattr(cls, method)),
+        P='P', prims='ExecPrims σ ε ν A K π φ', tyvars='{σ ε ν A K π φ : Type}', ret_lean='ν', ret_type='fval',
+        args=args, ignore=(),
+        opaque={'asyncio.get_running_loop().run_in_executor': 'rie'},
+        atoms={'func': ('()', 'callable'), 'executor': ('()', 'executorcls')} if method == '__init__' else {},
+        setattr={'self._func': ('{P}.setFunc', 'callable'), 'self._executor': ('{P}.setExecutor', 'executorcls')},
+        contexts_as={'self._executor()': ('{P}.enterPool', '{P}.exitPool {x}', 'pool')},
+        calls=[('functools.partial', [('path', 'self._func'), ('star', 'xargs'), ('starstar', 'xkwargs')],
+                '{P}.mkPartial {a[0]} {a[1]}', 'partial')],
+        await_var_calls=[('rie', [('ty', 'pool'), ('ty', 'partial')], '!{P}.runPartial {a[0]} {a[1]}', 'fval'),
+                         ('rie', [('ty', 'pool'), ('path', 'self._func'), ('star', 'xargs')], '!{P}.runPlain {a[0]} {a[1]}', 'fval')],
+    )
+
+
+def signature_defaults(fn):
+    """keyword-only parameters of a constructor with the source text of their defaults (`<required>` if none)"""
+    a = fn.args
+    out = []
+    for arg, default in zip(a.kwonlyargs, a.kw_defaults):
+        out.append((arg.arg, '<required>' if default is None else ast.unparse(default)))
+    return out
+
+
+def main2(outfile, api):
+    sb = api['sblocks2']
+    L = [HEADER2.rstrip('\n'), '']
+
+    def translate(t):
+        return TrOA(t).function(t['node']())
+
+    def defaults(t):
+        rows = signature_defaults(t['node']())
+        body = ',\n   '.join('("' + n + '", "' + d.replace('\\', '\\\\').replace('"', '\\"') + '")' for n, d in rows)
+        return f"def {t['name']} : List (String × String) :=\n  [{body}]"
+
+    A, F = sb.OutputAsync, sb.OutputFunc
+    targets = [
+        (init_target(api, 'check_arg', sb._check_arg, 'blocklib.sblocks2._check_arg',
+                     [('name', 'str'), ('arg', 'argspec')]), translate),
+        (dict(name='oasync_init_defaults', doc='blocklib.sblocks2.OutputAsync.__init__ (signature)',
+              node=lambda: api['fn_ast'](A.__init__)), defaults),
+        (init_target(api, 'oasync_init', A.__init__, 'blocklib.sblocks2.OutputAsync.__init__', CTOR_ASYNC), translate),
+        (init_target(api, 'oasync_start', A.start, 'blocklib.sblocks2.OutputAsync.start', []), translate),
+        (init_target(api, 'oasync_init_regular', A.init_regular, 'blocklib.sblocks2.OutputAsync.init_regular', []), translate),
+        (dict(name='ofunc_init_defaults', doc='blocklib.sblocks2.OutputFunc.__init__ (signature)',
+              node=lambda: api['fn_ast'](F.__init__)), defaults),
+        (init_target(api, 'ofunc_init', F.__init__, 'blocklib.sblocks2.OutputFunc.__init__', CTOR_FUNC), translate),
+        (func_target(api, 'ofunc_event_put', '_event_put', [('data', 'fdata')], True), translate),
+        (func_target(api, 'ofunc_init_regular', 'init_regular', [], False), translate),
+        (func_target(api, 'ofunc_stop', 'stop', [], False), translate),
+        (exec_target(api, 'inexecutor_init', '__init__', []), translate),
+        (exec_target(api, 'inexecutor_call', '__call__', [('args', 'xargs'), ('kwargs', 'xkwargs')]), translate),
+    ]
+    for t, tr in targets:
+        api['emit'](L, t, tr, ': the statements in program order' if tr is translate else ': keyword-only parameters and their defaults')
+    L.append('end Edzed.Gen.TrOB')
+    api['write_if_changed'](outfile, '\n'.join(L) + '\n')
+
+
 def main(outfile, api):
     D.Ctx.Untranslatable = api['Untranslatable']
     D.Ctx.node_path = staticmethod(api['node_path'])
@@ -726,3 +1057,5 @@ def main(outfile, api):
         api['emit'](L, t, translate, ': the statements of the method in program order')
     L.append('end Edzed.Gen.TrOA')
     api['write_if_changed'](outfile, '\n'.join(L) + '\n')
+    import os
+    main2(os.path.join(os.path.dirname(outfile), 'TranslatedOutputBlocks.lean'), api)
